@@ -112,6 +112,30 @@ Proof.
     eapply extends_trans; [|exact E]. exists [e]. reflexivity.
 Qed.
 
+(* a call returns only when the executor has nothing to run and every emitted event has been applied *)
+Lemma run_all_idle : forall fuel k k', run_all FUEL fuel k = Some k' -> k_spawn k' = [] /\ xready (k_H k') = [].
+Proof.
+  induction fuel as [|f IH]; intros k k' E; [discriminate|]. cbn [run_all] in E.
+  destruct (k_spawn k) eqn:ES; destruct (xready (k_H k)) eqn:ER.
+  - some_eq E. split; assumption.
+  - destruct (xspawn_all FUEL FUEL k) as [k1|]; [|discriminate].
+    destruct (xready_all FUEL FUEL k1) as [k2|]; [|discriminate]. eapply IH; eauto.
+  - destruct (xspawn_all FUEL FUEL k) as [k1|]; [|discriminate].
+    destruct (xready_all FUEL FUEL k1) as [k2|]; [|discriminate]. eapply IH; eauto.
+  - destruct (xspawn_all FUEL FUEL k) as [k1|]; [|discriminate].
+    destruct (xready_all FUEL FUEL k1) as [k2|]; [|discriminate]. eapply IH; eauto.
+Qed.
+Theorem process_idle : forall fuel hs k k', process FUEL fuel hs k = Some k' ->
+  k_spawn k' = [] /\ xready (k_H k') = [] /\ k_events k' = [].
+Proof.
+  induction fuel as [|f IH]; intros hs k k' E; [discriminate|]. cbn [process] in E.
+  destruct (run_all FUEL FUEL k) as [k1|] eqn:E1; [|discriminate].
+  apply run_all_idle in E1. destruct E1 as [S1 R1].
+  destruct (k_events k1) as [|e rest] eqn:EV.
+  - some_eq E. split; [exact S1 | split; [exact R1 | exact EV]].
+  - eapply IH; eauto.
+Qed.
+
 Lemma extends_prefix a b : extends a b -> is_prefix a b = true.
 Proof. intros [l ->]. apply is_prefix_app. Qed.
 Lemma skipn_app_len {A} (a l : list A) : skipn (length a) (a ++ l) = l.
